@@ -202,7 +202,7 @@ func decide(p *Property, runs []*configRun, findings []Finding, tier string, see
 		}
 		n := 0
 		for _, o := range a.R.Obls {
-			if ruleSet[o.Rule] || strings.HasPrefix(o.Rule, "F3") && ruleSet["F3"] && ruleSet[o.Rule] {
+			if ruleSet[o.Rule] {
 				o.Config = cr.Cfg.String()
 				all = append(all, o)
 				n++
@@ -222,11 +222,16 @@ func decide(p *Property, runs []*configRun, findings []Finding, tier string, see
 			}
 		}
 		for k, v := range a.R.Counts {
-			if _, isFloor := p.Floors[k]; !isFloor {
-				if strings.HasPrefix(k, strings.Split(k, ".")[0]) && ruleSet[strings.Split(k, ".")[0]] {
-					if counts[k] == 0 || v < counts[k] {
+			if _, isFloor := p.Floors[k]; isFloor {
+				continue
+			}
+			prefix := strings.Split(k, ".")[0]
+			for r := range ruleSet {
+				if strings.HasPrefix(r, prefix) {
+					if cur, ok := counts[k]; !ok || v < cur {
 						counts[k] = v
 					}
+					break
 				}
 			}
 		}
